@@ -7,6 +7,7 @@ import (
 	"time"
 
 	"github.com/anthdm/hollywood/actor"
+	"github.com/anthdm/hollywood/remote"
 )
 
 // corner09: unusual inputs for "sending never panics or blocks, a finite number of sends produces a
@@ -16,6 +17,7 @@ import (
 //	"events_gone"   the event stream actor itself has been stopped, then a send to an unregistered PID
 //	"sub_response"  the temporary PID of a pending Request is subscribed to the event stream, then k events
 //	"sub_self"      the event stream's own PID is subscribed to itself, then k events
+//	"remote_dead_sub" on an engine configured with a remote: a subscriber stops without unsubscribing, then k events
 //
 // Observation: how many DeadLetterEvents a monitor saw for the probe, whether the engine came to
 // rest, whether the sending goroutine panicked.  A panic on another goroutine kills the process
@@ -39,7 +41,14 @@ func runCorner09(raw json.RawMessage) (any, error) {
 	if err := json.Unmarshal(raw, &c); err != nil {
 		return nil, err
 	}
-	e, err := actor.NewEngine(actor.NewEngineConfig())
+	cfg := actor.NewEngineConfig()
+	if c.Kind == "remote_dead_sub" {
+		// an engine that has a remote: its own address is not "local"
+		r := remote.New(freeAddr(), remote.NewConfig())
+		defer r.Stop()
+		cfg = cfg.WithRemote(r)
+	}
+	e, err := actor.NewEngine(cfg)
 	if err != nil {
 		return nil, err
 	}
@@ -102,6 +111,14 @@ func runCorner09(raw json.RawMessage) (any, error) {
 			}
 			rest()
 			resp.Result()
+		case "remote_dead_sub":
+			a := e.SpawnFunc(func(*actor.Context) {}, "sub", actor.WithID("a"))
+			e.Subscribe(a)
+			rest()
+			<-e.Poison(a).Done()
+			for i := 0; i < c.K; i++ {
+				e.BroadcastEvent(cornerMsg{i})
+			}
 		case "sub_self":
 			e.Subscribe(es)
 			for i := 0; i < c.K; i++ {
